@@ -32,6 +32,8 @@ type c17Case struct {
 	Blocks int   `json:"blocks,omitempty"` // recovery blocks / volumes (default 3)
 	PriorBlocks int `json:"priorblocks,omitempty"` // history inside the process: an unrelated Create with this many blocks ran just before
 	Look  bool   `json:"look,omitempty"` // look-alike inputs: every file 17000 bytes with the same first 16 KiB, different tails (slice size 1000)
+	DupK  int    `json:"dupk,omitempty"`  // with Dup: which input is mentioned twice (index into the listed order)
+	DupAt int    `json:"dupat,omitempty"` // with Dup: 0 = the second mention goes to the end of the list; k>0 = it is inserted at position k-1
 	Dup   string `json:"dup,omitempty"`   // the first input is listed a second time (at the end), spelled in this style
 	Stale int    `json:"stale,omitempty"` // the set directory already holds output files: 1 = longer garbage under the same names, 2 = shorter, 3 = unrelated text; 4 = a real earlier Create over the same inputs with ONE block; 5 = a real earlier identical Create whose recovery files were then deleted / corrupted
 }
@@ -196,7 +198,13 @@ func c17CreateIn(c *c17Case, seed int64, r *core.Rec, stale map[string][]byte) (
 		args = append(args, c17Spell(c.Spell, cwd, a))
 	}
 	if c.Dup != "" {
-		args = append(args, c17Spell(c.Dup, cwd, abs[0]))
+		extra := c17Spell(c.Dup, cwd, abs[c.DupK%len(abs)])
+		if c.DupAt == 0 || c.DupAt-1 >= len(args) {
+			args = append(args, extra)
+		} else {
+			at := c.DupAt - 1
+			args = append(args[:at], append([]string{extra}, args[at:]...)...)
+		}
 	}
 	var err error
 	if c.Via == "cli" {
@@ -421,6 +429,12 @@ func c17Gen(g *core.Gen) {
 					}
 				}
 			}
+			// an input listed twice: every choice of the repeated input x every position of the second mention
+			for k := 0; k < n; k++ {
+				for at := 0; at <= n; at++ {
+					g.Emit(&c17Case{Fmt: f, N: n, G: 1, Cwd: "set", Spell: "rel", Via: "lib", Dup: "rel", DupK: k, DupAt: at})
+				}
+			}
 			// an input listed twice, the two mentions spelled alike or differently
 			for ci, cw := range cwds {
 				for _, sp := range spells {
@@ -445,7 +459,7 @@ func init() {
 	core.Register(&core.Prop{
 		ID:    "C17",
 		Level: "model_checking",
-		Rule: "full product on real directories: {PAR2, PAR1} x 1-4 files (PAR2 names in sub-directories) x EVERY permutation of the input list (PAR2) x goroutines 1..8 x working directory {set directory, its parent, an unrelated directory} x path spelling {relative, absolute, ./x, d//x, d/../d/x} for the index path and every input, through the library (the worker chdir()s, one scenario at a time) and through the built par command (g in {1,3}); the same for a set with slice size 96 and multi-slice files x goroutines 1..16 (so that the goroutine option really partitions the shards); repeated runs; block counts {5,6,7,9,12} alone and right after an unrelated Create with {5,6,9,20} blocks in the same process; look-alike inputs (equal length, identical first 16 KiB, different tails) x every permutation x g {1,3}; an input listed twice, for every pair of spellings of its two mentions x working directory (whatever Create does with a repeated input, the outcome - error or bytes - must equal that of the list with both mentions spelled alike). " +
+		Rule: "full product on real directories: {PAR2, PAR1} x 1-4 files (PAR2 names in sub-directories) x EVERY permutation of the input list (PAR2) x goroutines 1..8 x working directory {set directory, its parent, an unrelated directory} x path spelling {relative, absolute, ./x, d//x, d/../d/x} for the index path and every input, through the library (the worker chdir()s, one scenario at a time) and through the built par command (g in {1,3}); the same for a set with slice size 96 and multi-slice files x goroutines 1..16 (so that the goroutine option really partitions the shards); repeated runs; block counts {5,6,7,9,12} alone and right after an unrelated Create with {5,6,9,20} blocks in the same process; look-alike inputs (equal length, identical first 16 KiB, different tails) x every permutation x g {1,3}; an input listed twice - every choice of the repeated input x every position of its second mention, and for every pair of spellings of its two mentions x working directory (whatever Create does with a repeated input, the outcome - error or bytes - must equal that of the list with both mentions spelled alike). " +
 			"Oracle: the set of files written and every byte equal the baseline run (the built command in a fresh process: set directory, relative paths, listed order, g=1). non-trivial = any variation differs from the baseline configuration",
 		Assumptions: []string{"file contents, names relative to the index, slice size and block count are held fixed; everything else varies"},
 		NewCase:     func() interface{} { return &c17Case{} },
